@@ -215,7 +215,11 @@ def rule_R08_2(ctx):
             opsx = stt[2][2]
             want = {"op": (2, ()), "lhs": (1, ("*", ("f", 0, "", ""))), "rhs": (3, ("*", ("f", 0, "", "")))}
             for fname, (pn, pi) in want.items():
-                oo = pv.origins(gfn, opsx[fields.index(fname)], pi)
+                # asked from the action's own result, so that a constructor
+                # helper shared by several actions is entered with this
+                # action as calling context
+                fpi = (("d", "BinaryOp"), ("f", fields.index(fname), "ast::RawExpr", "BinaryOp")) + tuple(pi)
+                oo = pv.origins(f, [0, []], fpi)
                 po = param_origin(oo, f.path)
                 good = len(oo) == 1 and po and po[0][0] == pn and po[0][1][:1] == (F1,)
                 r.inst("tier %d action %d: %s <- %s" % (k + 1, act, fname, po))
@@ -239,7 +243,8 @@ def rule_R08_2(ctx):
         fields = stt[2][1]["fields"]
         opsx = stt[2][2]
         for fname, pn, pi in (("start", 1, ("*",)), ("end", 3, ("*", ("f", 0, "", "")))):
-            oo = pv.origins(gfn, opsx[fields.index(fname)], pi)
+            fpi = (("d", "Range"), ("f", fields.index(fname), "ast::RawExpr", "Range")) + tuple(pi)
+            oo = pv.origins(f, [0, []], fpi)
             po = param_origin(oo, f.path)
             r.inst("range action %d: %s <- %s" % (act, fname, po))
             if len(oo) == 1 and po and po[0][0] == pn:
